@@ -161,7 +161,8 @@ def run_job(job, acc):
     _, s, n, nvar = job
     r = random.Random(s)
     for i in range(n):
-        stmts = repeated_references_grammar(r) if i % 4 == 3 else c02.random_grammar(r)
+        stmts = repeated_references_grammar(r) if i % 4 == 3 else \
+            (common.dag_grammar(r) if i % 4 == 1 else c02.random_grammar(r))
         compare(acc, stmts, r, nvar, 'seed=%d #%d' % (s, i))
 
 
